@@ -240,6 +240,7 @@ package dataflow
 //@   requires forall n ssa.Node :: has(g.Params, n) ==> g.Params[n] != nil && g.Params[n].out != nil
 //@   ensures bad_position: !old(paramOk(g, src)) || pos < 0 ==> !result
 //@   ensures no_such_result: (forall r ssa.Instruction :: has(g.Returns, r) ==> pos >= len(g.Returns[r]) || g.Returns[r][pos] == nil) ==> !result
+//@   ensures both_directions: result ==> exists r ssa.Instruction :: has(g.Returns, r) && pos < len(g.Returns[r]) && g.Returns[r][pos] != nil && has(old(g.Params[g.Parent.Params[src]]).out, g.Returns[r][pos]) && g.Returns[r][pos].in != nil && has(g.Returns[r][pos].in, old(g.Params[g.Parent.Params[src]])) && g.Returns[r][pos].in[old(g.Params[g.Parent.Params[src]])].Index == pos
 //@   modifies map(GraphNode;[]EdgeInfo), map(GraphNode;EdgeInfo), elems(EdgeInfo), ReturnValNode.in, map(string;map[string]bool)
 
 // PopulateGraphFromSummary applies every listed position pair, and nothing else decides the edges.
